@@ -115,6 +115,9 @@ func (r *SecureRealm[A, Pub]) tell(ctx context.Context, src, dst A, v p2p.IOVec)
 }
 
 func (r *SecureRealm[A, Pub]) ask(ctx context.Context, resp []byte, src, dst A, v p2p.IOVec) (int, error) {
+	if p2p.VecSize(v) > r.config.mtu {
+		return 0, p2p.ErrMTUExceeded
+	}
 	s := r.getSwarm(dst)
 	onDrop := func() {
 		log.Println("dropping")
